@@ -1216,3 +1216,57 @@ Proof.
   intros Hwf. cbn [xfield_init]. rewrite (layout_eqb_union_refl fs Hwf). split; [reflexivity|].
   intros ->. reflexivity.
 Qed.
+
+(* ================================================================== designs assigning through views *)
+Definition sasg_ok (l : layout) (a : sasg) : Prop :=
+  sa_ix a = None /\ sa_path a <> [] /\ exists c t, path_chain l (sa_path a) = Some (c, t).
+
+Lemma asg_apply_static l env cur a c t : wf_layout l = true -> 0 <= cur < 2 ^ layout_size l ->
+  sa_ix a = None -> sa_path a <> [] -> path_chain l (sa_path a) = Some (c, t) ->
+  asg_apply l env cur a = upd (chain_off c) (layout_size t) cur (nth (sa_in a) env 0).
+Proof.
+  intros Hwf Hc Hix Hne Hpc. unfold asg_apply. rewrite Hix.
+  rewrite (view_assign_upd l cur (sa_path a) _ c t Hwf Hc Hpc Hne). reflexivity.
+Qed.
+
+(* bits outside every assigned field keep the value they had (their own driver / init); the value stays in range *)
+Lemma asgs_apply_outside l env : wf_layout l = true -> forall asgs cur, 0 <= cur < 2 ^ layout_size l ->
+  (forall a, In a asgs -> sasg_ok l a) ->
+  0 <= asgs_apply l env cur asgs < 2 ^ layout_size l /\
+  forall i, 0 <= i ->
+    (forall a c t, In a asgs -> path_chain l (sa_path a) = Some (c, t) ->
+                   ~ (chain_off c <= i < chain_off c + layout_size t)) ->
+    Z.testbit (asgs_apply l env cur asgs) i = Z.testbit cur i.
+Proof.
+  intros Hwf. induction asgs as [|a r IH]; intros cur Hc Hok.
+  - simpl. split; auto.
+  - destruct (Hok a (or_introl eq_refl)) as (Hix & Hne & c & t & Hpc).
+    destruct (path_chain_within _ l c t Hwf Hpc) as (H0 & H1 & Hwt).
+    pose proof (layout_size_nonneg t Hwt) as Hw.
+    unfold asgs_apply. cbn [fold_left]. fold (asgs_apply l env (asg_apply l env cur a) r).
+    rewrite (asg_apply_static l env cur a c t Hwf Hc Hix Hne Hpc).
+    assert (Hr : 0 <= upd (chain_off c) (layout_size t) cur (nth (sa_in a) env 0) < 2 ^ layout_size l)
+      by (apply upd_range; auto).
+    destruct (IH _ Hr (fun a' Hin => Hok a' (or_intror Hin))) as [IHr IHb]. split; auto.
+    intros i Hi Hout. rewrite IHb; auto.
+    + rewrite testbit_upd by auto. specialize (Hout a c t (or_introl eq_refl) Hpc).
+      replace ((chain_off c <=? i) && (i <? chain_off c + layout_size t)) with false by lia. reflexivity.
+    + intros a' c' t' Hin. apply Hout. right; auto.
+Qed.
+
+(* the statement that comes last determines its field: it reads back the assigned value in the field's shape *)
+Lemma asgs_apply_last l env asgs a cur c t : wf_layout l = true -> 0 <= cur < 2 ^ layout_size l ->
+  (forall a', In a' asgs -> sasg_ok l a') -> sa_ix a = None -> sa_path a <> [] ->
+  path_chain l (sa_path a) = Some (c, t) ->
+  let r := asgs_apply l env cur (asgs ++ [a]) in
+  view_path l r (sa_path a) = view_field t (mask (layout_size t) (nth (sa_in a) env 0)) /\
+  (forall s, t = Leaf s -> view_path l r (sa_path a) = Ok (Leaf s) (norm s (nth (sa_in a) env 0))).
+Proof.
+  intros Hwf Hc Hok Hix Hne Hpc r. unfold r, asgs_apply. rewrite fold_left_app. cbn [fold_left].
+  fold (asgs_apply l env cur asgs).
+  destruct (asgs_apply_outside l env Hwf asgs cur Hc Hok) as [Hr _].
+  unfold asg_apply. rewrite Hix.
+  destruct (view_assign_only_field l (asgs_apply l env cur asgs) (sa_path a) (nth (sa_in a) env 0) c t Hwf Hr Hpc Hne)
+    as (tv' & Hva & _ & _ & _ & Hv & Hl).
+  rewrite Hva. split; auto.
+Qed.
